@@ -259,7 +259,16 @@ def run_case(ctx, case):
                      f"a//b/{stem}.csv", f"a/b/{stem}.csv"][ctx.evaluations % 5]
             if fname != f"a/b/{stem}.csv":
                 ctx.tag("archive:path-spelling")
-            archive = zipfile.ZipFile(wd / "arch.zip", "w")
+            # the caller's archive, opened the way the caller chose: new ("w", "x") or to
+            # be extended ("a", on a new or on an existing archive)
+            amode = ["w", "a", "x", "a+existing"][ctx.evaluations % 4]
+            if amode == "a+existing":
+                with zipfile.ZipFile(wd / "arch.zip", "w") as z0:
+                    z0.writestr("readme.txt", "already there")
+                amode = "a"
+            if amode != "w":
+                ctx.tag("archive:opened-in-another-mode")
+            archive = zipfile.ZipFile(wd / "arch.zip", amode)
             kw = {"archive": archive}
             # other members first, with names that contain / are contained in ours
             others = {f"north/a/b/{stem}.csv": 1, f"b/{stem}.csv": 2,
@@ -277,6 +286,16 @@ def run_case(ctx, case):
         # the dictionary object handed to the library (our own copy stays pristine);
         # in some cases the very same object has already been used for another frame
         cdict = dict(comments)
+        if ctx.evaluations % 5 == 2 and comments:
+            # ... or an instance of a dictionary subclass
+            import collections
+            class Meta(dict):
+                pass
+            dd_ = collections.defaultdict(str)
+            dd_.update(comments)
+            cdict = [collections.OrderedDict(comments), dd_, Meta(comments)][
+                ctx.evaluations // 5 % 3]
+            ctx.tag("comments:dict-subclass")
         if ctx.evaluations % 4 == 1 and comments:
             ctx.tag("same-comment-dict")
             other = pd.DataFrame({"q": np.arange(len(df) + 3.0), "r": 1, "s": "u"})
